@@ -178,7 +178,8 @@ def run(ck: Check, repo: Repo) -> None:
         " folder's order hazards. Plus: order-preserving pool.map, worker state, depth sort of REUSE.toml files."
         " Not decided: cwd / root-spelling independence (path arithmetic at run time)."
     )
-    ck.not_decided = ["independence of the current working directory and of the spelling of --root (values of path arithmetic at run time)"]
+    ck.not_decided = ["independence of the current working directory and of the spelling of --root beyond the SPDXID inputs"
+                      " (values of path arithmetic at run time)"]
     ck.trust("CPython ast", "mypy (library) types and callees", "table T3 of order canonisers (sorted, list.sort, boolean.py simplify)")
     facts = TypeFacts(repo)
     cg = CallGraph(repo, facts)
@@ -187,3 +188,6 @@ def run(ck: Check, repo: Repo) -> None:
     rule_sinks(ck, repo, cg, ot)
     rule_pool(ck, repo)
     rule_toml_order(ck, repo)
+    r4 = ck.rule("R4", "identifiers derived by hashing take only root-relative inputs (clause of root-spelling independence)")
+    from . import c18
+    c18.spdx_id_inputs(ck, repo, r4)
